@@ -1729,6 +1729,8 @@ def cmd_stdapi(args):
             # acceptance of the printing functions: whatever dis.dis / dis.show_code take, the same-named xdis.std function takes
             # (the text itself is xdis's own format and is C12's business)
             for fname in ("dis", "show_code"):
+                if label not in ("class", "source", "generator", "coroutine", "async_generator", "method") and nobj % 5:
+                    continue  # plain functions / code objects: every fifth one
                 buf = io.StringIO()
                 try:
                     getattr(dis, fname)(o, file=buf)
